@@ -359,6 +359,7 @@ def main():
                 samples.append({"scenario": j["scenario"], "shape": j.get("shape"), "params": j.get("params"), "concrete": j.get("concrete"), "group": g["name"], "form": g["form"], "claim": g["claim"], "items": ([i["name"] for i in g["items"]] + [q["name"] for q in g.get("raw", [])])[:12], "n_vars": len(g["vars"]), "vars_head": g["vars"][:12], "verdict": results[gkey(f, gi, g)]["verdict"], "path_conditions_head": j.get("path_conditions", [])[:4]})
     # --- replay violations natively
     reproduced = []
+    replay_cache = {}
     os.makedirs(os.path.join(VERIF, "replays", prop), exist_ok=True)
     for k, v in enumerate(violations):
         rp = v.get("replay")
@@ -367,7 +368,10 @@ def main():
         if not rp or rp == {}:
             inconclusive.append("%s: %s failed but the scenario has no native replay: %s" % (v["scenario"], v["what"], v["detail"]))
             continue
-        r = sh([SYMARK, "replay", path])
+        ckey = json.dumps([rp, v.get("model", {})], sort_keys=True)
+        if ckey not in replay_cache:
+            replay_cache[ckey] = sh([SYMARK, "replay", path])
+        r = replay_cache[ckey]
         v["replay_output"] = r.stdout[-1500:]
         if r.returncode == 1 and "REPLAY REPRODUCED" in r.stdout:
             reproduced.append((v, path))
